@@ -119,7 +119,7 @@ func setIn(ds []ggrun.Diag, dirs map[string]bool) map[string]bool {
 
 func checkC06(replay string) {
 	r := base.NewRun("C06")
-	r.Rule = "generated import DAGs (declaring packages incl. byte-identical twin declarations, using packages, a transit package, an unrelated package; rich annotation values) are analysed by: standalone ./..., standalone naming only leaf packages, standalone with random package subsets, go vet -vettool (facts on disk, one process per package), the in-process driver with and without the fact sanity check; per analysed package all normalised diagnostic sets must be equal; every exported fact must survive a gob round trip and equal the annotation reader's result; toggling annotations of a package P does not directly import must leave P's set unchanged; distinct = (program, driver/run-set variant) comparisons with a non-empty set"
+	r.Rule = "generated import DAGs (declaring packages incl. byte-identical twin declarations, using packages, a transit package, an unrelated package; rich annotation values) are analysed by: standalone ./..., standalone naming only leaf packages, standalone with random package subsets, go vet -vettool (facts on disk, one process per package), the in-process driver with and without the fact sanity check; per analysed package all normalised diagnostic sets must be equal; every exported fact must survive a gob round trip and equal the annotation reader's result; toggling annotations of a package P does not directly import must leave P's set unchanged; every line of every package is also judged by the reference model (annotations on exported and unexported types, methods, @mutable fields, constructor lists, allow-lists as seen from importers); distinct = (program, driver/run-set variant) comparisons with a non-empty set"
 	r.Assume = []string{"go vet / unitchecker and x/tools checker as shipped with the pinned toolchain and x/tools v0.38.0", "golangci-lint / gopls drivers not installed: out of reach"}
 	nProg := r.Pick(10, 120)
 	vcheckBin := filepath.Join(base.BuildDir, "vcheck")
@@ -150,6 +150,18 @@ func checkC06(replay string) {
 			return
 		}
 		all := setIn(ref.Diags, nil)
+		// every kind of annotation must take effect in importers exactly as in the declaring package: the reference model
+		// judges each line of the importing packages (exported and unexported types, methods, fields, constructor lists, allow-lists)
+		exp := gen.Evaluate(bt.P, gen.DefaultCfg(), root)
+		mm, judged, _ := gen.Compare(bt.P, exp, ggrun.ToObs(ref.Diags))
+		r.Eval(judged)
+		seenKey := map[string]bool{}
+		for _, m := range mm {
+			if !seenKey[m.Key] {
+				seenKey[m.Key] = true
+				r.Violate("importer/"+m.Key, fmt.Sprintf("program %d: %s", pi, m.Detail), fs)
+			}
+		}
 		compare := func(name string, got map[string]bool, dirs map[string]bool) {
 			want := setIn(ref.Diags, dirs)
 			oa, ob := diffSets(want, got)
